@@ -347,3 +347,11 @@ def describe_exc(e) -> dict:
         "where": where,
         "frames": [f"{os.path.relpath(f.filename, REPO)}:{f.lineno}:{f.name}" for f in tb[-6:]],
     }
+
+
+def replay_args(path):
+    """(tier, seed) recorded in a replay file: every scenario is a pure function of the check
+    seed and its index, so re-running the tier with the recorded seed re-executes the witness."""
+    with open(path) as f:
+        rp = json.load(f)
+    return rp.get("tier", "quick"), int(rp.get("seed", 0))
